@@ -323,6 +323,35 @@ impl Check for C10 {
                 p
             }
         }));
+        // the caller gives a call up (drops its future) while the terminal is silent - in the handshake of a
+        // replacement connection, in the middle of an exchange: whatever that leaves behind, the calls that
+        // follow on the same client object still return
+        {
+            let wl2 = wl.clone();
+            fams.push(Family::new("call_cancelled_by_the_caller_then_further_calls", 5 * 4 * 3, true, move |i, _| {
+                let mut ops = wl2[(i % 5) as usize].clone();
+                ops.extend(wl2[((i + 1) % 5) as usize].clone());
+                let mut p = ClientPlan::plain(ops);
+                p.cfg.max_tx = 2;
+                let where_ = (i / 5) % 4;
+                let after_ms = [1_000u64, 30_000, 61_500][(i / 20) as usize];
+                p.faults = match where_ {
+                    // silence in the first exchange of the first call
+                    0 => vec![FaultSpec { conn: 0, point: 14, kind: FaultKind::Silence }],
+                    // the connection is lost, the handshake of the replacement falls silent (registration / identity)
+                    1 => vec![FaultSpec { conn: 0, point: 14, kind: FaultKind::Eof }, FaultSpec { conn: 1, point: 2, kind: FaultKind::Silence }],
+                    2 => vec![FaultSpec { conn: 0, point: 14, kind: FaultKind::Eof }, FaultSpec { conn: 1, point: 4, kind: FaultKind::Silence }],
+                    // ... or the replacement's connect never completes
+                    _ => vec![FaultSpec { conn: 0, point: 14, kind: FaultKind::Eof }],
+                };
+                if where_ == 3 {
+                    p.connects = vec![ConnectSpec::Ok, ConnectSpec::Hang];
+                }
+                p.cancel_after = vec![(0, after_ms)];
+                p.label = "cancelled".into();
+                p
+            }));
+        }
         // connects that never complete, from the start / after k good ones
         fams.push(Family::new("connect_never_completes", 5 * 6, true, {
             let wl = wl.clone();
@@ -466,7 +495,7 @@ impl Check for C10 {
             h.bytes(plan.cfg.terminal_id.as_bytes());
         }
         out.shape = h.finish();
-        out.nontrivial = !plan.faults.is_empty() || !plan.connects.is_empty() || plan.label == "tau" || plan.label == "beyond_range" || plan.label == "cards" || plan.label.starts_with("max_tx") || plan.label == "close_each" || plan.label == "odd_tlv";
+        out.nontrivial = !plan.faults.is_empty() || !plan.connects.is_empty() || plan.label == "tau" || plan.label == "beyond_range" || plan.label == "cards" || plan.label.starts_with("max_tx") || plan.label == "close_each" || plan.label == "odd_tlv" || plan.label == "cancelled";
         if want_trace {
             out.trace = run.trace();
         }
